@@ -59,6 +59,10 @@ def main(argv=None):
     os.makedirs(common.SCRATCH_ROOT, exist_ok=True)
     import logging
     logging.disable(logging.CRITICAL)   # outrank logs through the root logger; observations are taken from return values
+    # import the code under test once, before any worker is forked
+    import outrank.core_ranking  # noqa
+    import outrank.task_ranking  # noqa
+    import outrank.task_summary  # noqa
     try:
         mod = importlib.import_module(f'mc.checks.{pid.lower()}')
     except ModuleNotFoundError as e:
